@@ -14,6 +14,11 @@ pub fn plan(prop: &str, tier: Tier) -> Option<(&'static str, Vec<Job>)> {
             Job::new("catalogue", if q { 1200 } else { 40_000 }).caches(&["off", "big"]),
             Job::new("catalogue", if q { 600 } else { 20_000 }).flavour("groups").caches(&["off"]),
         ],
+        "C07" => vec![Job::new("offsets", if q { 1600 } else { 60_000 }).caches(&["off", "big"])],
+        "C08" => vec![
+            Job::new("groupcomp", if q { 30_000 } else { 1_000_000 }),
+            Job::new("groups", if q { 1200 } else { 40_000 }).caches(&["off", "big"]),
+        ],
         "C13" => vec![
             Job::new("wire", if q { 40_000 } else { 1_500_000 }),
             Job::new("catalogue", if q { 600 } else { 20_000 }).caches(&["off", "big"]),
